@@ -449,7 +449,7 @@ theorem fromIsPrefix_join (F : List Bytes) : ∀ (P : List Bytes),
       rw [fromIsPrefix_tokens f p _ _ (sF f (by simp)) (sP p (by simp)) (joinTokens_slashOrEnd Fs) (joinTokens_slashOrEnd Ps),
         ih Ps (fun t ht => sF t (by simp [ht])) (fun t ht => sP t (by simp [ht]))]
       by_cases hfp : f = p
-      · subst hfp; simp [List.isPrefixOf_cons_cons]
+      · subst hfp; simp
       · simp [List.isPrefixOf_cons_cons, hfp, beq_eq_false_iff_ne.mpr hfp]
 
 /-- what a successfully parsed pointer string tells about the C side -/
